@@ -228,7 +228,13 @@ def check_dimensions(ctx, db):
         f = db.fn(qn)
         ctx.touch(f)
         n += dims.check(ctx, f, seeds, min_sites=mins)
-    ctx.require('R-DIM resolved sites', n, 20)
+    seeds2 = {'tolerance': 1, 'radius': 1, 'radii': 1, 'center': 1, 'radius_x': 1, 'radius_y': 1, 'inner_radius_x': 1, 'inner_radius_y': 1, 'inner_radius': 1, 'point_array': 1, 'corner1': 1, 'corner2': 1,
+              'full_size': 1, 'arm_width': 1, 'side_length': 1, 'straight_length': 1, 'size': 1, 'position': 1, 'len0': 1, 'len1': 1, 'max_len': 1, 'p0': 1, 'p1': 1, 'p2': 1, 'v0': 1, 'v1': 1}
+    for qn, mins in (('gdstk::Polygon::fillet', 25), ('gdstk::ellipse', 35), ('gdstk::racetrack', 18), ('gdstk::cross', 25), ('gdstk::Curve::arc', 12)):
+        f = db.fn(qn)
+        ctx.touch(f)
+        n += dims.check(ctx, f, seeds2, min_sites=mins)
+    ctx.require('R-DIM resolved sites', n, 140)
     # floored modulo: fmod keeps the sign of its numerator; the only caller corrects it
     calls = [(f, c) for f in db.functions if f.body is not None and f.relfile().startswith('src/') for c in f.walk() if c.k == 'CallExpr' and c.callee in ('fmod', 'std::fmod', 'fmodf', 'remainder')]
     bad = []
@@ -388,7 +394,7 @@ def run(ctx):
 
 
 MANIFEST = dict(
-    text='Decides structural necessary conditions for curve sections: Curve::commands consumes exactly the operands its guard and advance constants state and agrees letter-by-letter with RobustPath::commands; every section method stores last_ctrl on every path (or delegates unconditionally), and on the relative path the stored control point is absolute (dependence closure reaches the current end point / absolute control polygon); every vertex count from arc_num_points that is used as a divisor is dominated by a clamp to >= 2 (or the n == 1 guard); the four adaptive samplers clamp the parameter step so the last vertex is the requested end point; one generic iteration of cubic, cubic_smooth, quadratic and quadratic_smooth, in relative and absolute mode, hands exactly the documented control points to the flattening routine and carries exactly the documented end/control point to the next section (polynomial identities); the flatness tests compare squared deviations only with the squared tolerance (powers-of-length analysis: no absolute threshold), angle reduction uses a floored modulo; two bounds of the same direction on one variable (fillet radius vs both adjacent edges) are applied independently, never else-chained. Tolerance and finiteness of sampled vertices are not decided.',
+    text='Decides structural necessary conditions for curve sections: Curve::commands consumes exactly the operands its guard and advance constants state and agrees letter-by-letter with RobustPath::commands; every section method stores last_ctrl on every path (or delegates unconditionally), and on the relative path the stored control point is absolute (dependence closure reaches the current end point / absolute control polygon); every vertex count from arc_num_points that is used as a divisor is dominated by a clamp to >= 2 (or the n == 1 guard); the four adaptive samplers clamp the parameter step so the last vertex is the requested end point; one generic iteration of cubic, cubic_smooth, quadratic and quadratic_smooth, in relative and absolute mode, hands exactly the documented control points to the flattening routine and carries exactly the documented end/control point to the next section (polynomial identities); the flatness tests compare squared deviations only with the squared tolerance and fillet, ellipse, racetrack, cross and Curve::arc are dimensionally consistent throughout (powers-of-length analysis, ~190 resolved sites: no absolute threshold, no length compared with an area), angle reduction uses a floored modulo; two bounds of the same direction on one variable (fillet radius vs both adjacent edges) are applied independently, never else-chained. Tolerance and finiteness of sampled vertices are not decided.',
     note='Trusted: clang front end, gx, sa rules. `parametric` is exempt from the last_ctrl rule (stated reason in the checker).',
     technique='operand-consumption tables + must-write dataflow over the CFG + dependence closure + clamp dominance + clamp-chain discipline',
     design='§4 C15')
